@@ -374,14 +374,14 @@ Proof.
     replace (Z.to_nat a + Datatypes.S k)%nat with (Datatypes.S (Z.to_nat a + k)) by lia. apply Hs; [lia|exact Hp].
 Qed.
 
-(* the kernel, run for its side effect on the buffer (return_dtw = false), in the internal representation
-   (keep_int_repr = true) and without a bound (max_dist = 0 and no pruning: p.max_dist = INFINITY) *)
-Theorem c_wps_kernel_fills_the_matrix ce shiftf ced1 ced2 wps0 psi_neg idist zp1e zp2e :
+(* the kernel up to the end of the row regions: what follows is CWpsCanon.k_wtail on an array whose rows hold the
+   matrix; without a bound (max_dist = 0 and no pruning: p.max_dist = INFINITY) *)
+Theorem c_wps_kernel_runs ce shiftf ced1 ced2 wps0 return_dtw keep psi_neg idist zp1e zp2e :
   Z.of_nat (length wps0) = wl -> (idist =? 1) = false ->
   exists wps',
-    c_dtw_warping_paths_ndim ce shiftf ced1 ced2 wps0 s1 l1 s2 l2 false true psi_neg ndim wl
+    c_dtw_warping_paths_ndim ce shiftf ced1 ced2 wps0 s1 l1 s2 l2 return_dtw keep psi_neg ndim wl
       ldiff ldiffr ldiffc window W wl ri1 ri2 ri3 ms Inf (Fin pen) idist false zp1b zp1e (Z.of_nat p2b) zp2e false
-    = (RPlain (Fin (-1)), wps', true) /\
+    = k_wtail shiftf return_dtw keep psi_neg l1 l2 W wl wl Inf zp1e zp2e true wps' /\
     Z.of_nat (length wps') = wl /\
     forall k, (k <= l1n)%nat -> holds l1 l2 window0 d pen p1b p2b k (rowf l1 l2 window0 wps' k).
 Proof.
@@ -440,5 +440,19 @@ Proof.
     as [[[[[[[ecD mnD] okD] rwD] rwpD] scD] wD] wsD].
   destruct HD as (_ & _ & -> & _ & _ & _ & (HlD & HrowsD & _)).
   exists wD. split; [reflexivity|]. split; [exact HlD|exact HrowsD].
+Qed.
+(* run for its side effect on the buffer (return_dtw = false), in the internal representation (keep_int_repr = true) *)
+Theorem c_wps_kernel_fills_the_matrix ce shiftf ced1 ced2 wps0 psi_neg idist zp1e zp2e :
+  Z.of_nat (length wps0) = wl -> (idist =? 1) = false ->
+  exists wps',
+    c_dtw_warping_paths_ndim ce shiftf ced1 ced2 wps0 s1 l1 s2 l2 false true psi_neg ndim wl
+      ldiff ldiffr ldiffc window W wl ri1 ri2 ri3 ms Inf (Fin pen) idist false zp1b zp1e (Z.of_nat p2b) zp2e false
+    = (RPlain (Fin (-1)), wps', true) /\
+    Z.of_nat (length wps') = wl /\
+    forall k, (k <= l1n)%nat -> holds l1 l2 window0 d pen p1b p2b k (rowf l1 l2 window0 wps' k).
+Proof.
+  intros Hl0 Hid.
+  destruct (c_wps_kernel_runs ce shiftf ced1 ced2 wps0 false true psi_neg idist zp1e zp2e Hl0 Hid) as (w & E & HL & HR).
+  exists w. split; [rewrite E; reflexivity|]. split; assumption.
 Qed.
 End Spec.
